@@ -2,8 +2,10 @@ package main
 
 import (
 	"bytes"
+	"errors"
 	"fmt"
 	"io"
+	"runtime"
 	"strings"
 
 	"github.com/pinealctx/neptune/tex"
@@ -230,12 +232,64 @@ func errStatus(err error) int64 {
 	return 1999
 }
 
+// panicClass maps the VALUE a call panicked with to the status the model uses:
+// 900 runtime index / slice-bounds error, 904 ErrTooLarge (each package has its own variable with the same text),
+// 905 Grow's negative count, 906 truncation out of range, 907 errNegativeRead, 908 invalid Write count,
+// 909 any other runtime error (e.g. makeslice: len out of range), 910 anything else.
+func panicClass(r interface{}) int64 {
+	msg := ""
+	switch v := r.(type) {
+	case runtime.Error:
+		m := v.Error()
+		if strings.Contains(m, "slice bounds out of range") || strings.Contains(m, "index out of range") {
+			return 900
+		}
+		return 909
+	case error:
+		if errors.Is(v, tex.ErrTooLarge) || errors.Is(v, bytes.ErrTooLarge) {
+			return 904
+		}
+		msg = v.Error()
+	case string:
+		msg = v
+	default:
+		return 910
+	}
+	switch msg {
+	case "bytes.Buffer: too large":
+		return 904
+	case "bytes.Buffer.Grow: negative count":
+		return 905
+	case "bytes.Buffer: truncation out of range":
+		return 906
+	case "bytes.Buffer: reader returned negative count from Read":
+		return 907
+	case "bytes.Buffer.WriteTo: invalid Write count":
+		return 908
+	}
+	return 910
+}
+
 func statusName(st int64) string {
 	switch st {
 	case 0:
 		return "ok"
 	case 900:
-		return "panic"
+		return "panic(index/slice bounds)"
+	case 904:
+		return "panic(ErrTooLarge)"
+	case 905:
+		return "panic(negative count)"
+	case 906:
+		return "panic(truncation out of range)"
+	case 907:
+		return "panic(errNegativeRead)"
+	case 908:
+		return "panic(invalid Write count)"
+	case 909:
+		return "panic(other runtime error)"
+	case 910:
+		return "panic(other)"
 	case 901:
 		return "EOF"
 	case 902:
@@ -273,7 +327,7 @@ func apply(b bufAPI, o *gop) (st int64, data []int64) {
 	var w *swriter
 	defer func() {
 		if r := recover(); r != nil {
-			st, data = 900, []int64{}
+			st, data = panicClass(r), []int64{}
 			if w != nil && w.called {
 				data = append([]int64{-1}, i64s(w.got)...)
 			}
